@@ -222,6 +222,18 @@ def run(ctx):
             d = norm(T.at_term(tm["discr"], bb))
             if d[0] == "discr" and d[1][0] == "await" and d[1][1][0] == "call" and str(d[1][1][1]).endswith("validate_cookie"):
                 good_edges.extend(discr_edges(cfg, bb, good_idx))
+    # the same test written as `status == CookieStatus::Good` / `!=`
+
+    def m_good(d):
+        if d[0] == "call" and str(d[1]).rsplit("::", 1)[-1] in ("eq", "ne") and len(d[2]) == 2:
+            xs = [norm(x) for x in d[2]]
+            for i in range(4):
+                xs = [norm(x[1]) if x[0] in ("ref", "deref") else x for x in xs]
+            return any(x[0] == "await" and norm(x[1])[0] == "call" and str(norm(x[1])[1]).endswith("validate_cookie") for x in xs) and any(
+                x[0] == "agg" and str(x[1]).endswith("CookieStatus") and x[2] == "Good" for x in xs)
+        return False
+    for sbb, d, te, fe in bool_switches(P, body, m_good):
+        good_edges.extend(te if str(d[1]).endswith("::eq") else fe)
     falses = [(bb, s) for bb, idx, s in body.stmts() if s["p"] == (0,) and "rv" in s and s["rv"]["k"] == "use" and s["rv"]["op"].get("k", {}).get("bool") is False]
     trues = [(bb, s) for bb, idx, s in body.stmts() if s["p"] == (0,) and "rv" in s and s["rv"]["k"] == "use" and s["rv"]["op"].get("k", {}).get("bool") is True]
     for bb, s in falses:
@@ -271,6 +283,27 @@ def run(ctx):
     MAXT = _const_u(P, "erbium::dns::bucket::GenericTokenBucket::MAX_TOKENS")
     TPS = _const_u(P, "erbium::dns::bucket::GenericTokenBucket::TOKENS_PER_SECOND")
     min_cost = None
+    if cost_t is not None and cost_t[0] == "phi" and len(cost_t[1]) == 2:
+        # the floor written as a comparison: `if x < FLOOR { FLOOR } else { x }` — read as max(x, FLOOR) when the constant is the
+        # value on the edge where x is the smaller one (the other way round it would be a ceiling)
+        alts = [norm(x) for x in cost_t[1]]
+        cst = [x for x in alts if x[0] == "const" and isinstance(x[1], int)]
+        var = [x for x in alts if x[0] != "const"]
+        if len(cst) == 1 and len(var) == 1:
+            c, x = cst[0], var[0]
+
+            def m_cmp(d):
+                return d[0] == "bin" and d[1] in ("Lt", "Le", "Gt", "Ge") and {0, 1} == {0 if norm(q) == x else (1 if (norm(q)[0] == "const" and norm(q)[1] == c[1]) else 2)
+                                                                                  for q in (d[2], d[3])}
+            small = []
+            for sbb, d, te, fe in bool_switches(P, body, m_cmp):
+                x_first = norm(d[2]) == x
+                x_smaller_when_true = (d[1] in ("Lt", "Le")) == x_first
+                small += te if x_smaller_when_true else fe
+            const_sets = [bb for bb, idx, st in body.stmts() if st.get("rv") and st["rv"]["k"] == "use" and st["rv"]["op"].get("k") and
+                          len(st["p"]) == 1 and "usize" in body.local_ty(st["p"][0]) and norm(T.rvalue(st["rv"], bb, idx))[:2] == ("const", c[1])]
+            if small and const_sets and all(edge_dominated(cfg, small, bb) for bb in const_sets):
+                cost_t = ("call", "std::cmp::max", (x, c), None)
     if cost_t is not None and cost_t[0] == "call" and str(cost_t[1]).endswith("cmp::max"):
         cs = [norm(x)[1] for x in cost_t[2] if norm(x)[0] == "const"]
         if cs:
@@ -325,7 +358,28 @@ def run(ctx):
         depl = [(bb, tm) for bb, tm in lb.calls() if (callee_name(tm) or "").endswith("GenericTokenBucket::deplete")]
         ctx.check(len(checks) == len(depl) and len(depl) >= 1, "R4", "every-grant-depletes", ctx.where(lb), "%d check(s), %d deplete(s)" % (len(checks), len(depl)))
         tr = [bb for bb, idx, s in lb.stmts() if s["p"] == (0,) and "rv" in s and s["rv"]["k"] == "use" and s["rv"]["op"].get("k", {}).get("bool") is True]
-        okk = bool(tr) and all(any(cl.dominates(d, t) for d, _ in depl) for t in tr)
+        # wherever a bucket's check came out true, that bucket is charged before the function returns (this also covers a result handed
+        # back as the check's own boolean: `let ok = b.check(n); if ok { b.deplete(n) }; ok`).  A later test of the same result (the
+        # helper's boolean tested again by its caller) follows the first one's outcome.
+        rets = set(cl.return_blocks())
+        dblocks = tuple(d for d, _ in depl)
+        sws = list(bool_switches(P, lb, lambda d: d[0] == "call" and str(d[1]).endswith("GenericTokenBucket::check")))
+        okk = True
+        n_true = 0
+        good_true_edges = []
+        for sbb, d, te, fe in sws:
+            first = [o for o in sws if len(o[1]) > 3 and len(d) > 3 and o[1][3] == d[3] and (o[0] == sbb or cl.dominates(o[0], sbb))]
+            first = min(first, key=lambda o: sum(1 for q in first if cl.dominates(q[0], o[0]))) if first else None
+            if first is None or first[0] == sbb:
+                for _, tgt in te:
+                    n_true += 1
+                    if cl.reachable_from(tgt, blocked=dblocks) & rets:
+                        okk = False
+            if first is not None and not any(cl.reachable_from(tgt, blocked=dblocks) & rets for _, tgt in first[2]):
+                good_true_edges += te
+        # a literal `true` is returned only where a bucket has been charged
+        okk = okk and all(any(cl.dominates(d, t) for d, _ in depl) or edge_dominated(cl, good_true_edges, t) for t in tr)
+        okk = okk and (bool(tr) or n_true >= 1) and n_true >= len(checks)
         ctx.check(okk, "R4", "true-only-after-deplete", ctx.where(lb), "the limiter answers true only after charging a bucket")
 
     # ---------------- R3: cookie
@@ -371,6 +425,17 @@ def run(ctx):
             continue
         for _, bb2, idx2, s2 in find_aggs(P, "CookieStatus", [ob]):
             if s2["rv"].get("variant") == "Good":
+                # `status == CookieStatus::Good`: a Good built only to be compared with is not a verdict
+                L = s2["p"][0] if len(s2["p"]) == 1 else None
+                refs = {st3["p"][0] for _, _, st3 in ob.stmts() if st3.get("rv") and st3["rv"]["k"] == "ref" and tuple(st3["rv"]["place"]) == (L,) and len(st3["p"]) == 1}
+                for _ in range(2):
+                    refs |= {st3["p"][0] for _, _, st3 in ob.stmts() if st3.get("rv") and st3["rv"]["k"] == "use" and op_place(st3["rv"]["op"]) and
+                             len(op_place(st3["rv"]["op"])) == 1 and op_place(st3["rv"]["op"])[0] in refs and len(st3["p"]) == 1}
+                compared = any((callee_name(t3) or "").rsplit("::", 1)[-1] in ("eq", "ne") and any(op_place(a3) and op_place(a3)[0] in refs for a3 in t3["args"])
+                               for _, t3 in ob.calls())
+                moved = any(st3.get("rv") and st3["rv"]["k"] == "use" and op_place(st3["rv"]["op"]) == (L,) for _, _, st3 in ob.stmts())
+                if L is not None and compared and not moved:
+                    continue
                 elsewhere.append("%s at %s" % (ob.id.split("::{")[0].rsplit("::", 1)[-1], P.rel(s2["sp"])))
     if vk in P.bodies:
         ctx.check(not elsewhere, "R3", "good-is-decided-only-by-the-hmac-check", ctx.where(P.bodies[vk]),
